@@ -8,6 +8,7 @@ CONSTANTS
   MaxSeeds = 2
   MaxSeedLen = 2
   WithTwins = TRUE
+  ResizeAlways = TRUE
   NBig = 0
   KBig = 1
   NBigMin = 1
